@@ -84,6 +84,8 @@ def run(R):
         r6(R, m)
     if R.want("C08.R8"):
         r8(R)
+    if R.want("C08.R9"):
+        r9(R, m)
     if R.want("C08.R7"):
         # "indexes ... within the hkl tolerance": the gate's count (cImageD11.score), the peaks claimed (score_and_assign via
         # getind), the refinement (score_and_refine) and the Python references use ONE predicate.  Shared with C06.R3 / R4.
@@ -847,3 +849,123 @@ def r8(R):
             "the cached hkl pairs are looked up by ring number and computed from %s, which makerings rebuilds, but the validity test "
             "compares nothing that makerings changes: after makerings(limit, another tolerance) the entries describe other rings" % ring_inputs)
     R.check("B" in tested, "C08.R8", UC, reset_if.lineno, "unitcell.getanglehkls", "validity test compares the B matrix", "a changed cell keeps the old pairs")
+
+
+# --------------------------------------------------------------------------------------------------
+def pair_enumeration(fn, a1, a2):
+    """how the two values stored into .ring_1 / .ring_2 range over the ring list.  Returns (verdict, text): verdict 'all' (every
+    unordered pair including a ring with itself is visited), 'no-diagonal' (pairs of distinct rings only), 'partial' (some other
+    proper subset, text says which) or None when the enumeration is not one of the recognised forms"""
+    v1, v2 = a1.value, a2.value
+
+    def binder(name):
+        """the loop that binds name and the sequence it ranges over (enumerate / zip-free unwrapping of the target structure)"""
+        n = a1
+        while n is not None:
+            n = getattr(n, "_parent", None)
+            if isinstance(n, ast.For):
+                def find(t, it):
+                    if isinstance(t, ast.Name):
+                        return it if t.id == name else None
+                    if isinstance(t, (ast.Tuple, ast.List)):
+                        # enumerate(X[, start]) binds (index, element of X)
+                        if isinstance(it, ast.Call) and src(it.func) == "enumerate" and it.args and len(t.elts) == 2:
+                            r = find(t.elts[1], it.args[0])
+                            if r is not None:
+                                return r
+                            if isinstance(t.elts[0], ast.Name) and t.elts[0].id == name:
+                                return None
+                        for e in t.elts:
+                            r = find(e, it)
+                            if r is not None:
+                                return r
+                    return None
+                r = find(n.target, n.iter)
+                if r is not None:
+                    return n, r, None
+        return None, None, None
+
+    def root(v):
+        """ring value expression -> (variable it depends on, pattern)"""
+        names = [x.id for x in ast.walk(v) if isinstance(x, ast.Name)]
+        return names
+    n1 = [x for x in root(v1)]
+    n2 = [x for x in root(v2)]
+    cands1 = [(x,) + binder(x) for x in n1 if binder(x)[0] is not None]
+    cands2 = [(x,) + binder(x) for x in n2 if binder(x)[0] is not None]
+    if len(cands1) != 1 or len(cands2) != 1:
+        return None, "loop variables of the two rings"
+    (x1, l1, it1, k1), (x2, l2, it2, k2) = cands1[0], cands2[0]
+    if l1 is l2:
+        # one loop over pairs: itertools.* or a precomputed list
+        it = it1
+        if isinstance(it, ast.Call):
+            fnm = (dotted(it.func) or "").split(".")[-1]
+            rep = [k.value for k in it.keywords if k.arg in ("repeat", "r")]
+            two = (len(it.args) == 2 and pyfacts.const_int(it.args[1]) == 2) or (rep and pyfacts.const_int(rep[0]) == 2)
+            if fnm == "product" and ((len(it.args) == 2 and src(it.args[0]) == src(it.args[1])) or (len(it.args) == 1 and two)):
+                return "all", src(it)
+            if fnm == "combinations_with_replacement" and two:
+                return "all", src(it)
+            if fnm in ("combinations", "permutations") and two:
+                return "no-diagonal", src(it)
+        if isinstance(it, ast.Name):
+            # pairs list built by a comprehension / loops over the same ring list
+            comps = [c for c in ast.walk(fn) if isinstance(c, ast.Assign) and src(c.targets[0]) == it.id and isinstance(c.value, ast.ListComp)]
+            if len(comps) == 1 and len(comps[0].value.generators) == 2:
+                g1, g2 = comps[0].value.generators
+                if src(g1.iter) == src(g2.iter) and not g1.ifs and not g2.ifs:
+                    return "all", src(comps[0].value)[:80]
+                if g1.ifs or g2.ifs:
+                    tests = [pyfacts.cmp_norm(t) for t in g1.ifs + g2.ifs]
+                    a, b = src(g1.target), src(g2.target)
+                    if src(g1.iter) == src(g2.iter) and len(tests) == 1 and tests[0] is not None:
+                        op, l, r = tests[0]
+                        if {l, r} == {a, b}:
+                            if op in ("LtE",):
+                                return "all", src(comps[0].value)[:80]
+                            if op in ("Lt", "NotEq"):
+                                return "no-diagonal", src(comps[0].value)[:80]
+        return None, "the pair iterable %s" % src(it)[:60]
+    # two nested loops
+    outer, inner = (l1, l2) if any(x is l2 for x in ast.walk(l1)) else (l2, l1)
+    ito, iti = (it1, it2) if outer is l1 else (it2, it1)
+    xo = x1 if outer is l1 else x2
+    if src(ito) == src(iti) and not (isinstance(ito, ast.Call) and src(ito.func) == "range"):
+        return "all", "for %s in %s: for .. in %s" % (xo, src(ito), src(iti))
+    if isinstance(ito, ast.Call) and src(ito.func) == "range" and isinstance(iti, ast.Call) and src(iti.func) == "range":
+        if src(ito) == src(iti):
+            return "all", "%s x %s" % (src(ito), src(iti))
+        if len(ito.args) == 1 and len(iti.args) == 2 and src(iti.args[1]) == src(ito.args[0]):
+            lo = iti.args[0]
+            if src(lo) == xo:
+                return "all", "for %s in %s: for .. in %s" % (xo, src(ito), src(iti))
+            if isinstance(lo, ast.BinOp) and isinstance(lo.op, ast.Add) and {src(lo.left), src(lo.right)} == {xo, "1"}:
+                return "no-diagonal", "for %s in %s: for .. in %s" % (xo, src(ito), src(iti))
+            if pyfacts.const_int(lo) == 0:
+                return "all", "%s x %s" % (src(ito), src(iti))
+    # slices of the same list:  for a in X: for b in X[k:]
+    if isinstance(iti, ast.Subscript) and src(iti.value) == src(ito):
+        return None, "slice enumeration %s" % src(iti)
+    return None, "the nested loops over %s / %s" % (src(ito)[:40], src(iti)[:40])
+
+
+def r9(R, m):
+    """completeness half of the property: 'searching all ring pairs reports every grain'.  A grain may only be reachable from two
+    peaks of the same ring (forgen = one ring; only one of the rings has peaks), so the drivers that set ring_1 / ring_2 and call
+    find() must visit a ring paired with itself as well as every pair of different rings."""
+    R.rule("C08.R9", "the ring-pair drivers (indexer.score_all_pairs, do_index) set ring_1, ring_2 to every unordered pair of the chosen "
+                     "rings, a ring paired with itself included, before find()/scorethem()")
+    n = 0
+    for q in ("indexer.score_all_pairs", "do_index"):
+        fn = m.nfunc(q)
+        a1 = [a for a in ast.walk(fn) if isinstance(a, ast.Assign) and isinstance(a.targets[0], ast.Attribute) and a.targets[0].attr == "ring_1"]
+        a2 = [a for a in ast.walk(fn) if isinstance(a, ast.Assign) and isinstance(a.targets[0], ast.Attribute) and a.targets[0].attr == "ring_2"]
+        R.shape(len(a1) == 1 and len(a2) == 1, "C08.R9", REL, q, "one assignment each to .ring_1 and .ring_2")
+        verdict, text = pair_enumeration(fn, a1[0], a2[0])
+        R.shape(verdict is not None, "C08.R9", REL, q, "the enumeration of ring pairs (%s)" % text)
+        n += 1
+        R.check(verdict == "all", "C08.R9", REL, a1[0].lineno, q, "ring pairs: %s" % text,
+                "only pairs of two different rings are searched: orientations that can only be generated from two peaks of the same ring "
+                "(a single ring in forgen / rings_to_use, or only one ring populated) are never tried and their grains are not reported")
+    R.floor("C08.R9", 2)
